@@ -1,1 +1,369 @@
-//! R7: forward detector model (filled in with C09..C13).
+//! R7: independent forward model of the detector (ionisation along helices,
+//! drift with the shipped tables, wire/pad signals from the shipped response
+//! functions with neighbour induction, digitisation, packing into spec-conformant
+//! banks under the simulation run number), plus inverse channel maps.
+use crate::refmodel::tables::*;
+use crate::refmodel::*;
+use alpha_g_detector::alpha16::aw_map::TpcWirePosition;
+use alpha_g_detector::alpha16::{Adc32ChannelId, BoardId as ABoard};
+use alpha_g_detector::padwing::map::TpcPadPosition;
+use alpha_g_detector::padwing::{AfterId, BoardId as PBoard, PadChannelId};
+use std::collections::BTreeMap;
+use std::f64::consts::PI;
+use std::sync::OnceLock;
+
+pub const SIM_RUN: u32 = u32::MAX;
+pub const NEIGHBOR: [f64; 5] = [1.0, -0.1275, -0.0365, -0.012, -0.0042];
+pub const DELAY: usize = 100;
+pub const WIRE_N: usize = 697; // requested 699
+pub const PAD_N: usize = 510;
+pub const WIRE_BASELINE: i16 = 3000;
+pub const PAD_BASELINE: i16 = 1725;
+
+pub struct Maps {
+    /// wire index -> (board name, channel 0..32)
+    pub wire: Vec<(&'static str, u8)>,
+    /// (column, row) -> (board name, chip 0..4, pad channel 1..=72)
+    pub pad: BTreeMap<(usize, usize), (&'static str, u8, u16)>,
+    pub wire_resp: Vec<f64>,
+    /// negated, i.e. as it appears on the pads (negative going)
+    pub pad_resp: Vec<f64>,
+    pub drift: Vec<(Vec<(f64, f64, f64)>, f64)>,
+}
+
+fn rebin(raw: &[f64]) -> Vec<f64> {
+    raw.chunks_exact(16).map(|c| c.iter().sum()).collect()
+}
+
+pub fn maps() -> &'static Maps {
+    static M: OnceLock<Maps> = OnceLock::new();
+    M.get_or_init(|| Maps::load(SIM_RUN))
+}
+
+impl Maps {
+    pub fn load(run: u32) -> Self {
+        let mut wire = vec![("", 0u8); 256];
+        for (name, _) in A16_BOARDS {
+            let b = ABoard::try_from(name).unwrap();
+            for ch in 0..32u8 {
+                let w = TpcWirePosition::try_new(run, b, Adc32ChannelId::try_from(ch).unwrap()).expect("wire map for sim run");
+                wire[usize::from(w)] = (name, ch);
+            }
+        }
+        let mut pad = BTreeMap::new();
+        for (name, _, _) in PWB_BOARDS {
+            let b = PBoard::try_from(name).unwrap();
+            for chip in 0..4u8 {
+                for ch in 1..=72u16 {
+                    if let Ok(p) = TpcPadPosition::try_new(run, b, AfterId::try_from(chip).unwrap(), PadChannelId::try_from(ch).unwrap()) {
+                        pad.insert((usize::from(p.column), usize::from(p.row)), (name, chip, ch));
+                    }
+                }
+            }
+        }
+        assert_eq!(pad.len(), 18432, "pad map must cover the detector");
+        let rd = |p: &str| std::fs::read(format!("/repo/physics/data/simulation/{p}")).expect("simulation data file");
+        let w: Vec<f64> = serde_json::from_slice(&rd("tpc_response/wires.json")).unwrap();
+        let p: Vec<f64> = serde_json::from_slice(&rd("tpc_response/pads.json")).unwrap();
+        let drift = serde_json::from_slice(&rd("drift_table/drift_1T_70Ar_30CO2.json")).unwrap();
+        Maps { wire, pad, wire_resp: rebin(&w), pad_resp: rebin(&p).into_iter().map(|x| -x).collect(), drift }
+    }
+    /// invert the drift table of the z slice: radius -> (drift time, Lorentz angle)
+    pub fn drift_time(&self, r: f64, z: f64) -> Option<(f64, f64)> {
+        let za = z.abs();
+        let (tab, _) = self.drift.iter().find(|(_, zb)| *zb >= za)?;
+        if r > tab[0].1 || r < tab[tab.len() - 1].1 {
+            return None;
+        }
+        for k in 1..tab.len() {
+            let (t0, r0, l0) = tab[k - 1];
+            let (t1, r1, l1) = tab[k];
+            if r <= r0 && r >= r1 && r0 > r1 {
+                let f = (r0 - r) / (r0 - r1);
+                return Some((t0 + f * (t1 - t0), l0 + f * (l1 - l0)));
+            }
+        }
+        None
+    }
+}
+
+#[derive(Clone, Copy, Debug)]
+pub struct TrackSpec {
+    pub phi0: f64,
+    pub radius: f64,
+    pub charge: f64,
+    pub lambda: f64,
+}
+
+#[derive(Clone, Debug)]
+pub struct EventSpec {
+    pub vertex: [f64; 3],
+    pub tracks: Vec<TrackSpec>,
+    pub amp: f64,
+    pub sigma_z: f64,
+    pub step: f64,
+}
+
+#[derive(Clone, Copy, Debug)]
+pub struct Hit {
+    pub wire: usize,
+    pub bin: usize,
+    pub z: f64,
+    pub amp: f64,
+}
+
+pub fn ionisation(maps: &Maps, ev: &EventSpec) -> Vec<Hit> {
+    let mut hits = Vec::new();
+    for tr in &ev.tracks {
+        let d = (tr.phi0.cos(), tr.phi0.sin());
+        let n = (-d.1, d.0);
+        let q = tr.charge;
+        let c = (ev.vertex[0] + q * tr.radius * n.0, ev.vertex[1] + q * tr.radius * n.1);
+        let beta0 = (ev.vertex[1] - c.1).atan2(ev.vertex[0] - c.0);
+        let mut s = 0.0;
+        while s < 0.6 {
+            let a = beta0 + q * s / tr.radius;
+            let x = c.0 + tr.radius * a.cos();
+            let y = c.1 + tr.radius * a.sin();
+            let z = ev.vertex[2] + tr.lambda * s;
+            let r = x.hypot(y);
+            s += ev.step;
+            if r > 0.19 {
+                break;
+            }
+            if let Some((t, lor)) = maps.drift_time(r, z) {
+                let phi = (y.atan2(x) + lor).rem_euclid(2.0 * PI);
+                let shifted = ((phi / (2.0 * PI / 256.0)).floor() as usize) % 256;
+                let wire = (shifted + 8) & 0xff;
+                let bin = (t * 62.5e6).round() as usize;
+                hits.push(Hit { wire, bin, z, amp: ev.amp });
+            }
+        }
+    }
+    hits
+}
+
+/// Calibrated (baseline-subtracted, after-delay) signals
+#[derive(Clone, Default)]
+pub struct Signals {
+    pub wires: BTreeMap<usize, Vec<f64>>,
+    pub pads: BTreeMap<(usize, usize), Vec<f64>>,
+}
+
+pub fn pad_row_of(z: f64) -> i64 {
+    ((z + 1.152) / 0.004 - 0.5).round() as i64
+}
+pub fn pad_row_z(row: usize) -> f64 {
+    (row as f64 + 0.5) * 0.004 - 1.152
+}
+pub fn wire_column(wire: usize) -> usize {
+    ((wire + 256 - 8) & 0xff) / 8
+}
+
+pub fn signals(maps: &Maps, sigma_z: f64, hits: &[Hit]) -> Signals {
+    let mut out = Signals::default();
+    let wl = WIRE_N - DELAY;
+    let pl = PAD_N - DELAY;
+    for h in hits {
+        for d in -4i32..=4 {
+            let w = ((h.wire as i32 + d).rem_euclid(256)) as usize;
+            let f = NEIGHBOR[d.unsigned_abs() as usize] * h.amp;
+            let sig = out.wires.entry(w).or_insert_with(|| vec![0.0; wl]);
+            for (k, r) in maps.wire_resp.iter().enumerate() {
+                if h.bin + k < wl {
+                    sig[h.bin + k] += f * r;
+                }
+            }
+        }
+        let col = wire_column(h.wire);
+        let row0 = pad_row_of(h.z);
+        for row in (row0 - 6)..=(row0 + 6) {
+            if !(0..576).contains(&row) {
+                continue;
+            }
+            let zc = pad_row_z(row as usize);
+            let q = h.amp * (-(zc - h.z).powi(2) / (2.0 * sigma_z * sigma_z)).exp();
+            if q < 1e-3 * h.amp {
+                continue;
+            }
+            let sig = out.pads.entry((col, row as usize)).or_insert_with(|| vec![0.0; pl]);
+            for (k, r) in maps.pad_resp.iter().enumerate() {
+                if h.bin + k < pl {
+                    sig[h.bin + k] += q * r;
+                }
+            }
+        }
+    }
+    out
+}
+
+pub fn readout_index(pad_channel: u16) -> u16 {
+    (1..=79u16).find(|&ro| ref_readout_to_chan(ro) == Some(RefPwbChan::Pad(pad_channel))).expect("pad channel 1..=72")
+}
+
+pub fn wire_bank_name(board: &str, ch: u8) -> String {
+    format!("C{board}{}", std::char::from_digit(ch as u32, 32).unwrap().to_ascii_uppercase())
+}
+
+pub fn a16_mac(board: &str) -> [u8; 6] {
+    A16_BOARDS.iter().find(|b| b.0 == board).unwrap().1
+}
+pub fn pwb_board(board: &str) -> (&'static str, [u8; 6], u32) {
+    *PWB_BOARDS.iter().find(|b| b.0 == board).unwrap()
+}
+
+/// spec-conformant ADC packet for a wire channel, suppression off
+pub fn wire_packet(board: &str, ch: u8, wf: &[i16]) -> Vec<u8> {
+    let baseline = if wf.len() >= 64 { adc_floor_mean64(wf) as i16 } else { 0 };
+    ref_adc_encode(
+        &RefAdc {
+            accepted_trigger: 4,
+            module: 0,
+            channel: 128 + ch,
+            requested: (wf.len() + 2) as u16,
+            event_timestamp: 7,
+            mac: Some(a16_mac(board)),
+            trigger_offset: Some(0),
+            build_timestamp: Some(0),
+            waveform: wf.to_vec(),
+            baseline,
+            keep_last: 0,
+            keep_bit: false,
+            suppression: false,
+        },
+        0,
+    )
+}
+
+pub fn trg_packet(ts: u32) -> Vec<u8> {
+    ref_trg_encode(&RefTrg {
+        udp_counter: 1,
+        timestamp: ts,
+        output: 3,
+        input: 9,
+        pulser: 0,
+        trigger_bitmap: 0,
+        nim_bitmap: 0,
+        esata_bitmap: 0,
+        mlu: false,
+        aw16_prompt: 0,
+        drift_veto: 5,
+        scaledown: 4,
+        aw16_multiplicity: 0,
+        aw16_bus: 0,
+        bsc64_bus: 0,
+        bsc64_multiplicity: 0,
+        coincidence_latch: 0,
+        firmware: 0,
+    })
+}
+
+/// PWB payload for one (board, chip) with the given (readout index, waveform) channels
+pub fn pwb_payload(board: &str, chip: u8, requested: u16, chans: &[(u16, Vec<i16>)]) -> Vec<u8> {
+    let mut chans = chans.to_vec();
+    chans.sort_by_key(|c| c.0);
+    let mut sent = 0u128;
+    for (ro, _) in &chans {
+        sent |= 1 << (ro - 1);
+    }
+    ref_pwb_encode(&RefPwb {
+        chip: b'A' + chip,
+        compression: 0,
+        trigger_source: 0,
+        mac: pwb_board(board).1,
+        trigger_delay: 0,
+        trigger_timestamp: 0,
+        last_sca_cell: 0,
+        requested,
+        sent_mask: sent,
+        threshold_mask: sent,
+        event_counter: 1,
+        fifo_max_depth: 0,
+        write_depth: 0,
+        read_depth: 0,
+        channels: chans,
+    })
+}
+
+/// chunk a payload into PCxx banks
+pub fn pwb_banks(board: &str, chip: u8, payload: &[u8], chunk_size: usize) -> Vec<(String, Vec<u8>)> {
+    let n = payload.len().div_ceil(chunk_size).max(1);
+    payload
+        .chunks(chunk_size)
+        .enumerate()
+        .map(|(i, part)| {
+            (
+                format!("PC{board}"),
+                ref_chunk_encode(&RefChunk { device_id: pwb_board(board).2, packet_sequence: 0, channel_sequence: 0, chip, flags: (i + 1 == n) as u8, chunk_id: i as u16, payload: part.to_vec() }),
+            )
+        })
+        .collect()
+}
+
+pub fn digitise_wire(sig: &[f64]) -> Vec<i16> {
+    let mut wf = vec![WIRE_BASELINE; DELAY + sig.len()];
+    for (k, v) in sig.iter().enumerate() {
+        wf[DELAY + k] = (WIRE_BASELINE as f64 + v).round().clamp(-32768.0, 32764.0) as i16;
+    }
+    wf
+}
+pub fn digitise_pad(sig: &[f64]) -> Vec<i16> {
+    let mut wf = vec![PAD_BASELINE; DELAY + sig.len()];
+    for (k, v) in sig.iter().enumerate() {
+        wf[DELAY + k] = (PAD_BASELINE as f64 + v).round().clamp(-2048.0, 2047.0) as i16;
+    }
+    wf
+}
+
+/// Pack calibrated signals into banks (TRG first, then wires, then pads).
+pub fn banks(maps: &Maps, sig: &Signals, ts: u32) -> Vec<(String, Vec<u8>)> {
+    let mut out = vec![("ATAT".to_string(), trg_packet(ts))];
+    for (&w, s) in &sig.wires {
+        let (board, ch) = maps.wire[w];
+        out.push((wire_bank_name(board, ch), wire_packet(board, ch, &digitise_wire(s))));
+    }
+    let mut groups: BTreeMap<(&'static str, u8), Vec<(u16, Vec<i16>)>> = BTreeMap::new();
+    for (&(col, row), s) in &sig.pads {
+        let (board, chip, ch) = maps.pad[&(col, row)];
+        groups.entry((board, chip)).or_default().push((readout_index(ch), digitise_pad(s)));
+    }
+    for ((board, chip), chans) in groups {
+        let requested = chans[0].1.len() as u16;
+        let pl = pwb_payload(board, chip, requested, &chans);
+        out.extend(pwb_banks(board, chip, &pl, 8192));
+    }
+    out
+}
+
+pub fn event_banks(ev: &EventSpec, ts: u32) -> Vec<(String, Vec<u8>)> {
+    let m = maps();
+    let hits = ionisation(m, ev);
+    banks(m, &signals(m, ev.sigma_z, &hits), ts)
+}
+
+/// The deterministic lattice of the forward-model parameter box (C12).
+pub const LATTICE_RADICES: [u64; 5] = [5, 4, 8, 3, 9];
+pub fn lattice_event(idx: u64, seed: u64) -> EventSpec {
+    let d = crate::core::unrank(idx, &LATTICE_RADICES);
+    let (si, ci, phase, nt, vzi) = (d[0] as usize, d[1] as usize, d[2] as usize, d[3] as usize + 2, d[4] as usize);
+    // generic points of the slope range: an exactly horizontal track (slope 0) is a measure-zero
+    // degenerate case of the stated distribution (all clusters on one pad row)
+    let slopes = [-0.8, -0.43, 0.07, 0.38, 0.8];
+    let radii = [0.3, 0.6, 1.2, 3.3];
+    // not a multiple of the 4 mm pad pitch: an exactly horizontal track whose z sits on a pad
+    // boundary gives two bit-equal pad amplitudes and therefore no pad maximum (measure-zero case)
+    let vz = -0.7857 + 0.19675 * vzi as f64;
+    let k = idx as usize + seed as usize;
+    let grid = [-0.01, 0.0, 0.01];
+    let vertex = [grid[k % 3], grid[(k / 3) % 3], vz];
+    let offset = seed as f64 * 0.1234;
+    let tracks = (0..nt)
+        .map(|j| TrackSpec {
+            phi0: offset + 2.0 * PI * (j as f64 / nt as f64) + phase as f64 * 2.0 * PI / (8.0 * nt as f64) + 0.37 * j as f64,
+            radius: radii[(ci + j) % 4],
+            charge: if j % 2 == 0 { 1.0 } else { -1.0 },
+            lambda: slopes[(si + 2 * j) % 5],
+        })
+        .collect();
+    EventSpec { vertex, tracks, amp: [50.0, 100.0, 150.0][(k / 9) % 3], sigma_z: [0.003, 0.0045, 0.006][(k / 27) % 3], step: 0.003 }
+}
